@@ -98,6 +98,7 @@ class Registry:
     def __init__(self):
         self.contracts = {}
         self.lemmas = {}
+        self.statics = {}  # name -> (callable(reg) -> result dict, props)
         self.classes = {}
         self.spec_functions = {}
         self.inline = set()
@@ -116,6 +117,9 @@ class Registry:
         l = Lemma(name, **kw)
         self.lemmas[name] = l
         return l
+
+    def static(self, name, fn, props=()):
+        self.statics[name] = (fn, list(props))
 
     def declare_class(self, name, inv=None, make=None, gen=None, ghost=None, **fields):
         self.classes[name] = ClassDecl(name, fields, inv, make, gen, ghost)
